@@ -126,6 +126,16 @@ func VerifTempDir() string {
 // replay driver's wall-clock limit plays that role.
 func VerifStepBudget(n int) {}
 
+// VerifShared runs f(0) and f(1): one after the other under the engine (which
+// flags writes to frozen state), concurrently in two goroutines natively (the
+// replay is built with -race).
+func VerifShared(f func(i int)) {
+	done := make(chan struct{})
+	go func() { f(1); close(done) }()
+	f(0)
+	<-done
+}
+
 // VerifFreeze marks everything reachable from v as shared between readers
 // (C19 frame condition); natively a no-op.
 func VerifFreeze(v interface{}) {}
